@@ -18,11 +18,19 @@
  *       to 5): the value must be the same as everywhere else
  *   N   (empty key only) the key given as (NULL, 0, seed): the definitions never touch the key when the length is 0,
  *       so NULL is one more legitimate place for the empty key
+ * Further step kinds:
+ *   steps [a,b,c,byte] <seed> = [8 values] same     the native step/finish operators of c18_ref.h against TLC's (OpSteps)
+ *   huge <fn> <len [hi,lo]> <align> <seed> = * ok   extreme lengths (2^31 .. 2^32-1 bytes, 2^30.. words): the key is a lazily
+ *        zeroed MAP_NORESERVE mapping with a few non-zero islands (start, around 2^30, 2^31, 3*2^30, end); the library's
+ *        value must equal the fold of the (TLC-bound) native step operators over the same bytes
+ * On every ordinary vector the native fold is also compared with TLC's expected value (disagreement = machinery error).
  * ASan therefore sees any read outside [key, key+len); the returned token is the value of the first
  * placement, the state token is "same" iff every placement returned that value.
  */
 #include "common.h"
 #include <stdint.h>
+#include <sys/mman.h>
+#include "c18_ref.h"
 
 typedef spif_uint32_t (*hfn_t)(spif_uint8_t *, spif_uint32_t, spif_uint32_t);
 #define H_CALLS_PER_VECTOR 39          /* E:8 E2:7 M:8 P:8x2 */
@@ -89,7 +97,7 @@ static spif_uint32_t eval_at(hfn_t fn, const unsigned char *kb, size_t nbytes, s
         prelude_sink ^= fn((spif_uint8_t *) key, lenarg, seed);
         if (nbytes) memcpy(key, kb, nbytes);
         errno = ERANGE;
-        if (want_align & 1) libast_debug_level = 5;     /* the value must not depend on the run-time debug level either */
+        if (want_align & 1) libast_debug_level = (want_align == 1) ? 1 : ((want_align == 3) ? 3 : 5);   /* nor on the run-time debug level */
     }
     r = fn((spif_uint8_t *) key, lenarg, seed);
     libast_debug_level = 0;
@@ -103,15 +111,89 @@ static spif_uint32_t eval_at(hfn_t fn, const unsigned char *kb, size_t nbytes, s
     return r;
 }
 
+
+/* ---- extreme lengths ------------------------------------------------------------------------------------ */
+#define HUGE_SPAN ((uint64_t) 1 << 32)
+static unsigned char *huge_base = NULL;
+static uint64_t island_pos[64]; static int n_islands = 0;
+
+static void huge_islands(unsigned char *key, uint64_t nbytes, uint32_t salt)
+{
+    static const uint64_t marks[] = { 0, (uint64_t) 1 << 30, ((uint64_t) 1 << 31) - 8, ((uint64_t) 1 << 31) + 5, (uint64_t) 3 << 30 };
+    uint64_t x = 88172645463325252ULL ^ salt; size_t m; int j;
+    for (j = 0; j < n_islands; j++) memset(huge_base + island_pos[j], 0, 16);      /* back to all-zero */
+    n_islands = 0;
+#define ISLAND(POS, CNT) do { uint64_t p_ = (POS); int q_; \
+        island_pos[n_islands++] = (uint64_t) ((key + p_) - huge_base); \
+        for (q_ = 0; q_ < (CNT); q_++) { x ^= x << 13; x ^= x >> 7; x ^= x << 17; key[p_ + q_] = (unsigned char) ((x >> 24) | 1); } } while (0)
+    for (m = 0; m < sizeof(marks) / sizeof(marks[0]); m++)
+        if (marks[m] + 13 <= nbytes) ISLAND(marks[m], 13);
+    if (nbytes >= 32) ISLAND(nbytes - 14, 14);                                      /* the last bytes, incl. every tail position */
+#undef ISLAND
+}
+
+static const char *huge_step(const vh_step_t *st, vh_sb *ret, vh_sb *state)
+{
+    unsigned long lv[2], sd[2]; int words; hfn_t fn; uint64_t units, nbytes; unsigned align; spif_uint32_t seed, lib, ref;
+    unsigned char *key;
+    if (st->nargs != 4) die_machinery("bad huge step");
+    fn = lookup(st->args[0], &words);
+    if (!fn || all_ints(st->args[1], lv, 2) != 2 || all_ints(st->args[3], sd, 2) != 2) die_machinery("bad huge step");
+    units = ((uint64_t) lv[0] << 16) | lv[1];
+    nbytes = words ? units * 4 : units;
+    align = (unsigned) atoi(st->args[2]);
+    seed = (spif_uint32_t) ((sd[0] << 16) | sd[1]);
+    if (units > 0xFFFFFFFFULL || nbytes > HUGE_SPAN + 4096 || align > 7) die_machinery("huge step out of range");
+    if (!huge_base) {
+        huge_base = (unsigned char *) mmap(NULL, HUGE_SPAN + (1 << 20), PROT_READ | PROT_WRITE,
+                                           MAP_PRIVATE | MAP_ANONYMOUS | MAP_NORESERVE, -1, 0);
+        if (huge_base == (unsigned char *) MAP_FAILED) die_machinery("cannot map 4 GiB (MAP_NORESERVE)");
+    }
+    key = huge_base + 4096 + align;
+    huge_islands(key, nbytes, (uint32_t) (units * 2654435761U) ^ seed);
+    lib = fn((spif_uint8_t *) key, (spif_uint32_t) units, seed);
+    ref = c18_ref(st->args[0], key, units, seed);
+    sb_printf(ret, "[%u,%u]", (unsigned) (lib >> 16), (unsigned) (lib & 0xffff));
+    if (lib == ref) sb_puts(state, "ok");
+    else sb_printf(state, "differs:ref=[%u,%u]", (unsigned) (ref >> 16), (unsigned) (ref & 0xffff));
+    return NULL;
+}
+
+static const char *steps_step(const vh_step_t *st, vh_sb *ret, vh_sb *state)
+{
+    unsigned long v[8]; uint32_t a, b, c, a0, b0, c0; uint8_t byte; uint32_t out[8]; int i;
+    if (st->nargs != 2 || all_ints(st->args[0], v, 8) != 8) die_machinery("bad steps step");
+    a0 = a = (uint32_t) ((v[0] << 16) | v[1]); b0 = b = (uint32_t) ((v[2] << 16) | v[3]); c0 = c = (uint32_t) ((v[4] << 16) | v[5]);
+    byte = (uint8_t) v[7];
+    C18_MIX(a, b, c);
+    out[0] = a; out[1] = b; out[2] = c;
+    out[3] = c18_oaat_step(b0, byte); out[4] = c18_oaat_fin(c0);
+    out[5] = c18_rot_step(b0, byte); out[6] = c18_rot_fin(c0); out[7] = c18_fnv1a_step(b0, byte);
+    (void) a0;
+    sb_putc(ret, '[');
+    for (i = 0; i < 8; i++) sb_printf(ret, "%s[%u,%u]", i ? "," : "", (unsigned) (out[i] >> 16), (unsigned) (out[i] & 0xffff));
+    sb_putc(ret, ']');
+    sb_puts(state, "same");
+    if (strcmp(st->exp_ret, "?") && strcmp(st->exp_ret, ret->p)) {
+        fprintf(stderr, "steps: TLC %s native %s\n", st->exp_ret, ret->p);
+        die_machinery("native step operators of c18_ref.h disagree with Hashes.tla");
+    }
+    return NULL;
+}
+
 static const char *vh_step(const vh_step_t *st, vh_sb *ret, vh_sb *state)
 {
     static unsigned long nums[1 << 16];
     static unsigned char kb[1 << 17];
     unsigned long sd[2];
     int words; size_t n, nbytes, i; unsigned a;
-    hfn_t fn = lookup(st->op, &words);
-    spif_uint32_t seed, lenarg, first = 0, v; int have = 0, calls = 0;
+    hfn_t fn;
+    spif_uint32_t seed, lenarg, first = 0, v, nref; int have = 0, calls = 0;
     char diff[160]; diff[0] = 0;
+
+    if (!strcmp(st->op, "huge")) return huge_step(st, ret, state);
+    if (!strcmp(st->op, "steps")) return steps_step(st, ret, state);
+    fn = lookup(st->op, &words);
 
     if (!fn || st->nargs != 2) die_machinery("bad step");
     n = all_ints(st->args[0], nums, sizeof(nums) / sizeof(nums[0]));
@@ -160,6 +242,14 @@ static const char *vh_step(const vh_step_t *st, vh_sb *ret, vh_sb *state)
     if (calls != H_CALLS_PER_VECTOR + (nbytes == 0 ? H_EXTRA_CALLS_EMPTY_KEY : 0)) die_machinery("placement count");
     sb_printf(ret, "[%u,%u]", (unsigned) (first >> 16), (unsigned) (first & 0xffff));
     sb_puts(state, diff[0] ? diff : "same");
+    /* the native fold of c18_ref.h against TLC: directly when TLC's value is at hand, otherwise reported for the check to
+       compare once TLC has judged the recorded value */
+    nref = c18_ref(st->op, kb, lenarg, seed);
+    if (strcmp(st->exp_ret, "?")) {
+        unsigned long ex[2];
+        if (all_ints(st->exp_ret, ex, 2) == 2 && (spif_uint32_t) ((ex[0] << 16) | ex[1]) != nref)
+            die_machinery("native fold of c18_ref.h disagrees with TLC's value");
+    } else if (nref != first) sb_printf(state, ";nref=[%u,%u]", (unsigned) (nref >> 16), (unsigned) (nref & 0xffff));
     if (key_modified) return "key-bytes-modified";
     return NULL;
 }
